@@ -75,6 +75,25 @@ package cache
 //@   safety off
 //@   ensures [C17:live-references-keep-the-value] old(n.ref) != 1 ==> (calls("(*Node).callFinalizer") == old(calls("(*Node).callFinalizer")) && n.value == old(n.value))
 
+// C17: Get never hands out a dead value. A handle is made only for a node that holds a value (found with one, or just
+// given one by setFunc); a node found or made without a value gives the reference taken for it back and nil is
+// answered; a handed-out node is promoted in the replacement policy; a closed cache answers nil.
+//@ count (*Node).unRefInternal
+//@ count cache.Cacher.Promote
+//@ func (*Cache).Get
+//@   props C17
+//@   safety off
+//@   at before stmt n.mu.Unlock()#3
+//@     assert [C17:a-handle-is-made-only-for-a-node-that-holds-a-value] n != nil && n.value != nil
+//@   at before stmt return &Handle{unsafe.Pointer(n)}
+//@     assert [C17:a-handed-out-node-is-promoted] r.cacher == nil || calls("cache.Cacher.Promote") == old(calls("cache.Cacher.Promote")) + 1
+//@     assert [C17:a-handed-out-node-keeps-the-reference-taken-for-it] calls("(*Node).unRefInternal") == old(calls("(*Node).unRefInternal"))
+//@   at before stmt return nil#2
+//@     assert [C17:a-node-without-a-value-gives-its-reference-back] calls("(*Node).unRefInternal") == old(calls("(*Node).unRefInternal")) + 1
+//@   at before stmt return nil#3
+//@     assert [C17:a-node-without-a-value-gives-its-reference-back] calls("(*Node).unRefInternal") == old(calls("(*Node).unRefInternal")) + 1
+//@   ensures [C17:a-closed-cache-answers-nil] old(r.closed) ==> result == nil
+
 // Evicting a namespace only takes the nodes out of the replacement policy: it holds no reference of its own on them
 // (Cache.Evict does: its lookup took one), so it must not drop one - a value still held through a handle would be
 // finalised under its holder.
